@@ -947,7 +947,18 @@ impl Element {
                         // this SHORT-NAME element might be newly created, in which case there is no previous path
                         if self.character_data().is_some() {
                             if let Some(parent) = self.parent()? {
-                                prev_path = Some(parent.path()?);
+                                let old_path = parent.path()?;
+                                // just like in set_item_name(), the new name must not be in use by a different element
+                                if let (Some(current_name), CharacterData::String(new_name)) = (parent.item_name(), &chardata) {
+                                    let new_path = format!("{}{new_name}", old_path.strip_suffix(&current_name).unwrap_or(""));
+                                    if *new_name != current_name && model.get_element_by_path(&new_path).is_some() {
+                                        return Err(AutosarDataError::DuplicateItemName {
+                                            element: parent.element_name(),
+                                            item_name: new_name.clone(),
+                                        });
+                                    }
+                                }
+                                prev_path = Some(old_path);
                             }
                         }
                     };
